@@ -91,6 +91,14 @@ theorem C10_needs_GovInv :
   ⟨{ id := 1, owner := 1, initPos := 0, totalPos := 500, stake := 500, preCons := true, curCons := some true,
      peerCost := 0, stakeCost := 101, auths := [(9, 1000, 0)] }, by decide, by decide⟩
 
+/-- a candidate whose `InitPos` and `TotalPos` are both 0 (reachable: setPromisePos 0, reduceInitPos to 0) satisfies `GovInv`
+and is covered by `C10_sum_le`: the repaired `splitNodeFee` (commit bf3b894d) gives it no stake fee instead of dividing by 0 -/
+example :
+    let c : Cand := { id := 5, owner := 4, initPos := 0, totalPos := 0, stake := 0, preCons := true, curCons := some true,
+                      peerCost := 100, stakeCost := 0, auths := [] }
+    candOK c = true ∧ (match splitNodeFee true true c 1000 with | .ok cr => cr == [(4, 1000)] | .error _ => false) = true := by
+  decide
+
 /-! Non-vacuity: a concrete settlement satisfying `GovInv` with three nodes, authorizers and a dapp share. -/
 def exampleEnv : SplitEnv :=
   { cands := [ { id := 2, owner := 2, initPos := 20000, totalPos := 0, stake := 20000, preCons := true, curCons := some true,
